@@ -65,6 +65,50 @@ pub fn check_point<M: Model, R: Conv<M::F>>(ctx: &Ctx<M, R>, rep: &mut Report, p
             rep.violation(sig("is_in_correct_subgroup_assuming_on_curve", if got { "accepts-non-member" } else { "rejects-member" }), d());
         }
     }
+    // the checked constructors enforce membership ("enforcing that points are in the prime-order subgroup"):
+    // they must accept exactly the members; for a non-member the documented outcome is a refusal (assertion)
+    if let Some((x, y)) = p {
+        if enumerated || (dg % 4 == 0) {
+            let (fx, fy) = (ctx.cur.ar.fld(x), ctx.cur.ar.fld(y));
+            let lam = fx + fy + M::F::one();
+            let built = guard(|| M::aff_new_checked(fx, fy));
+            let built_p = if lam.is_zero() {
+                None
+            } else {
+                Some(guard(|| if M::TE { M::from_raw_checked(&[fx * lam, fy * lam, fx * fy * lam, lam]) } else { M::from_raw_checked(&[fx * lam * lam, fy * lam * lam * lam, lam]) }))
+            };
+            ev(rep);
+            rep.class(if member { "checked constructors: member accepted" } else { "checked constructors: non-member refused" });
+            match (&built, member) {
+                (Ok(pt), true) => {
+                    if ctx.decode_aff(pt) != *p {
+                        rep.violation(sig("Affine::new", "value"), d());
+                    }
+                },
+                (Ok(_), false) => rep.violation(sig("Affine::new", "accepts-non-member"), d()),
+                (Err(_), true) => rep.violation(sig("Affine::new", "refuses-member"), d()),
+                (Err(_), false) => {},
+            }
+            if let Some(bp) = built_p {
+                match (&bp, member) {
+                    (Ok(g), true) => {
+                        if ctx.decode_aff(&g.into_affine()) != *p {
+                            rep.violation(sig("Projective::new", "value"), d());
+                        }
+                    },
+                    (Ok(_), false) => rep.violation(sig("Projective::new", "accepts-non-member"), d()),
+                    (Err(_), true) => rep.violation(sig("Projective::new", "refuses-member"), d()),
+                    (Err(_), false) => {},
+                }
+            }
+            // a pair of coordinates off the curve must be refused as well
+            let off = fy + M::F::one();
+            let off_pt: OP<R::El> = Some((x.clone(), ctx.cur.ar.el(&off)));
+            if !cur.on_curve(&off_pt) && guard(|| M::aff_new_checked(fx, off)).is_ok() {
+                rep.violation(sig("Affine::new", "accepts-off-curve"), d());
+            }
+        }
+    }
     // cofactor clearing
     if let Ok(exp) = cur.mul(&heff.h_eff, p) {
         if let Some(c) = rep.total(&sig("clear_cofactor", "total"), d, || a.clear_cofactor()) {
